@@ -87,7 +87,7 @@ class Slot:
         self.model = model
 
 
-FLAVOURS = ("plain", "hook", "typed", "fwd", "sub", "tsub")
+FLAVOURS = ("plain", "hook", "typed", "fwd", "sub", "tsub", "fs")
 
 
 class World:
@@ -118,6 +118,8 @@ class World:
             return nt.Tree
         if flavour == "typed":
             return nt.TypedTree
+        if flavour == "fs":
+            return importlib.import_module("nutree.fs").FileSystemTree
         if flavour in self._classes:
             return self._classes[flavour]
         world = self
